@@ -16,6 +16,18 @@ def run_probes(v):
         r = res[p.pid]
         table.append({"id": p.pid, "what": p.what, "expected": p.expect, "observed": r["class"], "run": r.get("run", ""), "diagnostic": (r.get("diagnostics") or [""])[0][:140]})
     v.coverage["grammar_probes"] = table
+    # the grammar boundary of the model (wf_gdef of Model/Generic.v) on the same definitions: inside
+    # for every probe that must compile, outside for the boundary probes
+    from .coqstage import build
+    build()
+    gp = dp.generic_predictions(os.path.join(CACHE, "probes", "c05"))
+    v.coverage["grammar_boundary_model_vs_probes"] = {"compared": len([k for k in gp if k != "_error"]), "model_outside": sorted(k for k, w in gp.items() if w == "0")}
+    for p in probes:
+        if p.pid in gp and gp[p.pid] != ("1" if p.expect == "compiles" else "0") or "_error" in gp:
+            v.violation("boundary", {"kind": "correspondence", "correspondence": "wf_gdef (Model/Generic.v) vs the classification of the grammar probes that rustc judges",
+                                     "probe": p.pid, "model_wf": gp.get(p.pid), "expected": p.expect, "error": gp.get("_error"),
+                                     "searched": "every grammar probe was compiled and run: see coverage.grammar_probes"}, no_input=True)
+            return True
     for p in probes:
         r = res[p.pid]
         ok_run = (r.get("run") or "").startswith("full=true eps=true")
@@ -66,6 +78,41 @@ def check(v):
         "no_attribute": sum(1 for d in adts if d.copy == "none"),
     }
     v.coverage["desertype_comparisons"] = sum(1 for x in c.cases if c.iobs.get((x.cid, "dty")) == "same")
+    # the definitions before instantiation (Model/Generic.v), run on every generic deep-copy definition
+    # of the campaign: inside the grammar boundary (wf_gdef; rustc compiled them all), inst_def equal to
+    # the instantiated type the rest of the model was run on, deser_args equal to the rule of the
+    # property at the level of parameters (which rustc's type_name confirmed, observation 'dty')
+    from .tygen import gdef_sexp, gen_expected
+    seen, bad, skipped = set(), [], 0
+    for x in c.cases:
+        t = x.t
+        if x.tid in seen or t[0] != "adt" or getattr(x, "liar", False):
+            continue
+        d = c.U.defs[t[1]]
+        if not d.tparams or d.copy == "zero" or getattr(d, "liar", False):
+            continue
+        seen.add(x.tid)
+        if gdef_sexp(c.U, d) is None:
+            skipped += 1
+            continue
+        from .tygen import ser_only
+        if ser_only(t):
+            # serialize-only arguments (&[T], SerIter) have no eps-copy type: wf and inst only
+            got = c.mobs.get(("g" + x.tid, "gen")) or ""
+            if not got.startswith("wf=1 inst=same "):
+                bad.append((x, got, "wf=1 inst=same ..."))
+            continue
+        got, want = c.mobs.get(("g" + x.tid, "gen")), gen_expected(c.U, t)
+        if got != want:
+            bad.append((x, got, want))
+    v.coverage["generic_level_comparisons"] = {"instances": len(seen) - skipped, "outside_texp_language": skipped, "disagreements": len(bad)}
+    if bad:
+        x, got, want = bad[0]
+        d = describe(c, x)
+        d.update({"kind": "correspondence", "correspondence": "Model/Generic.v (wf_gdef, inst_def, deser_args) vs the generated definition, its instantiation and the parameter-level rule confirmed by rustc",
+                  "model": got, "expected": want, "searched": "direct oracle of C05 on all %d generated cases: no failing input" % len(c.cases)})
+        v.violation("generic", d, no_input=True)
+        return
     v.assumptions.append("PARTIAL: 'the derived code compiles' is rustc's verdict on generated programs: observed on every generated definition and probe, not proved; the model states which definitions are accepted (derive_check, wf) and what they compute")
     v.coverage.setdefault("samples", []).append({"theorem": "C05_eps_results_have_the_eps_type: forall base h t buf e rest n, deser_eps_top base h t buf = Ok (e, rest, n) -> eps_ok base buf (dty_of t) e"})
 
